@@ -81,6 +81,8 @@ type jobPlan struct {
 	// caller pacing before Enqueue of this job
 	WaitDone int `json:"wait_done"` // wait until the loop has processed the result of this job, -1 none
 	PaceUs   int `json:"pace_us"`
+	// the body blocks until the caller's Enqueue of this job index has returned, -1 none
+	HoldUntil int `json:"hold_until"`
 }
 
 type config struct {
@@ -142,7 +144,7 @@ func genConfig(r *rng.R, idx, maxJobs int) config {
 	shape := r.Intn(6)
 	c.Shape = []string{"random", "chain", "independent", "fanin", "layers", "dupdeps"}[shape]
 	for k := 0; k < n; k++ {
-		jp := jobPlan{Ctx: 0, Outcome: "ok", Cancel: -1, WaitDone: -1}
+		jp := jobPlan{Ctx: 0, Outcome: "ok", Cancel: -1, WaitDone: -1, HoldUntil: -1}
 		switch shape {
 		case 0: // random DAG
 			if k > 0 && r.Chance(3, 4) {
@@ -254,6 +256,21 @@ func genConfig(r *rng.R, idx, maxJobs int) config {
 		c.Straggler = k
 		c.Jobs[k].Cancel = 0
 		c.Jobs[k].Outcome = "ok"
+	}
+	return c
+}
+
+// backlogConfig is a scripted execution: both workers run a job that ends only after the
+// caller has submitted total jobs, so more than a thousand ready jobs pile up in the loop
+// while the caller keeps calling Enqueue.
+func backlogConfig(idx, total int) config {
+	c := config{Case: idx, N: 2, ExtCancel: -1, Straggler: -1, Procs: 4, Shape: "backlog", PreCancel: []int{}, FlushNs: 1000}
+	for k := 0; k < total; k++ {
+		jp := jobPlan{Ctx: 0, Outcome: "ok", Cancel: -1, WaitDone: -1, HoldUntil: -1, Deps: []int{}}
+		if k < 2 {
+			jp.HoldUntil = total - 1
+		}
+		c.Jobs = append(c.Jobs, jp)
 	}
 	return c
 }
@@ -441,6 +458,8 @@ type result struct {
 	DupTicks   int       `json:"dup_ticks"`
 	CallerHung bool      `json:"caller_hung"`
 	HangStable bool      `json:"hang_stable"`
+	// a job whose Dependencies slice (owned by the caller) no longer holds what the caller put there, -1 none
+	DepsMutated int `json:"deps_mutated"`
 }
 
 func schedGoroutines() (int, string) {
@@ -513,6 +532,12 @@ func runCase(c config, seed uint64) result {
 	}
 
 	release := make(chan struct{})
+	depsMutated := int32(-1)
+	var keptDeps [][]*scheduler.ScheduledJob
+	reached := make([]chan struct{}, n)
+	for k := range reached {
+		reached[k] = make(chan struct{})
+	}
 	// the caller runs under a watchdog: a scheduler that deadlocks must not hang the harness
 	var err error
 	callerDone := make(chan struct{})
@@ -573,6 +598,12 @@ func runCase(c config, seed uint64) result {
 					if c.Straggler == k {
 						<-release
 					}
+					if jp.HoldUntil >= 0 && jp.HoldUntil < n {
+						select {
+						case <-reached[jp.HoldUntil]:
+						case <-release:
+						}
+					}
 					switch jp.Outcome {
 					case "err":
 						finish()
@@ -585,8 +616,24 @@ func runCase(c config, seed uint64) result {
 					return nil
 				},
 			})
+			close(reached[k])
+			// the Dependencies slice stays the caller's: it reads it again right after Enqueue (under the
+			// race detector a write by the scheduler shows up here) and once more after Wait
+			for i, d := range jp.Deps {
+				if deps[i] != sjs[d] {
+					atomic.CompareAndSwapInt32(&depsMutated, -1, int32(k))
+				}
+			}
+			keptDeps = append(keptDeps, deps)
 		}
 		err = s.Wait(ctxs[0])
+		for k, deps := range keptDeps {
+			for i, d := range c.Jobs[k].Deps {
+				if deps[i] != sjs[d] {
+					atomic.CompareAndSwapInt32(&depsMutated, -1, int32(k))
+				}
+			}
+		}
 	}()
 	hung := false
 	select {
@@ -596,7 +643,7 @@ func runCase(c config, seed uint64) result {
 	}
 	close(release) // the straggler may finish now
 
-	res := result{Cfg: c}
+	res := result{Cfg: c, DepsMutated: int(atomic.LoadInt32(&depsMutated))}
 	if hung {
 		// stable all-blocked dump: taken twice, a while apart
 		_, d1 := schedGoroutines()
@@ -750,6 +797,8 @@ func main() {
 	count := flag.Int("count", 100, "executions")
 	maxJobs := flag.Int("maxjobs", 24, "max jobs per execution")
 	only := flag.Int("only", -1, "run only this case index")
+	from := flag.Int("from", 0, "skip the cases before this index (continue a run that stopped after a stuck execution)")
+	backlog := flag.Int("backlog", 0, "after the random cases, one scripted execution with this many jobs submitted while both workers are busy")
 	flag.Parse()
 	w := bufio.NewWriterSize(os.Stdout, 1<<20)
 	defer w.Flush()
@@ -760,7 +809,7 @@ func main() {
 	}
 	for i := 0; i < *count; i++ {
 		cs := master.U64()
-		if *only >= 0 && i != *only {
+		if (*only >= 0 && i != *only) || i < *from {
 			continue
 		}
 		r := rng.New(cs)
@@ -771,7 +820,10 @@ func main() {
 			// goroutines of the stuck scheduler would pollute later executions
 			w.Flush()
 			fmt.Fprintf(os.Stderr, "stopping after case %d: execution did not quiesce\n", i)
-			break
+			return
 		}
+	}
+	if *backlog > 0 && (*only < 0 || *only == *count) && *from <= *count {
+		enc.Encode(runCase(backlogConfig(*count, *backlog), 0))
 	}
 }
